@@ -283,6 +283,25 @@ class World:
                 if kind.endswith("raise"):
                     raise RuntimeError(f"completion of {name}")
 
+            if "object" in kind:
+                class AsyncCallback:  # an object whose __call__ is a coroutine function (asyncio.iscoroutinefunction(obj) is False)
+                    async def __call__(self, metrics: Any) -> None:
+                        await acb(metrics)
+
+                return AsyncCallback()
+            if "partial" in kind:
+                import functools
+
+                async def with_extra(_extra: str, metrics: Any) -> None:
+                    await acb(metrics)
+
+                return functools.partial(with_extra, "extra")
+            if "method" in kind:
+                class Owner:
+                    async def done(self, metrics: Any) -> None:
+                        await acb(metrics)
+
+                return Owner().done
             return acb
 
         def cb(metrics: Any) -> None:
